@@ -835,6 +835,8 @@ class DMRGBackendImpl(MPSBackendImpl):
         # This marks the end of one full sweep: checking convergence
         if self.convergence_check(self.energy_tolerance):
             self.current_time = self.target_time
+            # max_sweeps bounds the sweeps of one time step, not of the whole run
+            self.sweep_count = 0
             self.timestep_complete()
         elif self.sweep_count + 1 > self.max_sweeps:
             # not converged
